@@ -50,7 +50,7 @@ the range of the writer's types and whose meaning (`wStep`: unfactored offsets) 
 state, C06's call-frame semantics of the input instruction under the input's data alignment factor
 (factored operands multiplied back exactly, not modulo 2^64; unsigned operands that would read as
 negative, and products outside `i32`, are `ValueTooLarge`).  `SetLoc` never converts
-(`UnsupportedCfiInstruction`).  Otherwise the conversion is an error (`convert_total`). -/
+(`UnsupportedCfiInstruction`).  Otherwise the conversion is an error (`cfi_convert_total`). -/
 theorem convert_instr_meaning (env : Env) (hex : ExprIdentity env) (off : Nat) (i : Instr)
     (w : Option WInstr) (off' : Nat) (hl : exprLen i < 2 ^ 64)
     (h : convertInstr env off i = .ok (w, off')) :
@@ -131,10 +131,10 @@ theorem convert_cie_params (cx : ConvFrame.Ctx) (cie : CfiEntry.Cie) (w : WCie) 
       | none => w.personality = none) :=
   convertCie_params cx cie w h
 
-/-- **convert_total.** `CallFrameInstruction::from` and the instruction loops return a value or a
+/-- **cfi_convert_total.** `CallFrameInstruction::from` and the instruction loops return a value or a
 `ConvertError` for every input (given an expression converter that does): no panic, no wrap-around
 — every product and sum is checked. -/
-theorem convert_total (env : Env) (hx : ∀ ex, (env.convertExpr ex).Normal) :
+theorem cfi_convert_total (env : Env) (hx : ∀ ex, (env.convertExpr ex).Normal) :
     (∀ off i, (convertInstr env off i).Normal) ∧ (∀ is off, (convertProg env off is).Normal) :=
   ⟨convertInstr_normal env hx, convertProg_normal env hx⟩
 
